@@ -111,6 +111,20 @@ struct guard gA, gB, a0, b0;
 #define SLOT(i) (&the_cb.pointers[i])
 #define CL(x) ((x) < XV_K ? (x) : 0u)      /* clamp an index that is known (assumed/checked) to be < K: keeps the bounds check quiet without a division */
 static unsigned slot_index(const struct hp_slot* s) { for (unsigned i = 0; i < XV_K; i++) if (s == SLOT(i)) return i; return XV_K; }
+/* address model of the slot array: slot i lives at xv_base + 8*i (xv_base arbitrary, 8-aligned, canonical, non-null).  reinterpret_cast between
+ * hazard_pointer* and the slot word is lowered to these two maps (cbmc's native pointer<->integer conversion made the K=8 formulas intractable). */
+uintptr_t xv_base;
+#define XV_BASE ((uintptr_t)0x00007f3a10002040)   /* a concrete canonical address: the code under contract only compares, tags and untags these words */
+#define SLOTW(i) (xv_base + 8 * (uintptr_t)(i))
+static unsigned word_index(uintptr_t w) { uintptr_t d = w - xv_base; return ((d & 7) == 0 && (d >> 3) < XV_K) ? (unsigned)(d >> 3) : XV_K; }
+static uintptr_t xv_p2w(const struct hp_slot* p) {
+  if (p == 0) return 0;
+  unsigned i = slot_index(p); __CPROVER_assert(i < XV_K, "hazard_pointer* converted to a word is a slot of the block"); return SLOTW(i);
+}
+static struct hp_slot* xv_w2p(uintptr_t w) {
+  if (w == 0) return 0;
+  unsigned i = word_index(w); __CPROVER_assert(i < XV_K, "word converted to hazard_pointer* is the address of a slot of the block"); return SLOT(CL(i));
+}
 /* guard invariant GI: a non-null pointer is published in the guard's slot */
 static _Bool gi_ok(const struct guard* g) {
   if (MP_get(g->ptr) == 0) return 1;
@@ -119,7 +133,6 @@ static _Bool gi_ok(const struct guard* g) {
 /* GI2: a guard that protects nothing holds no slot */
 static _Bool gi2_ok(const struct guard* g) { return MP_get(g->ptr) != 0 || g->hp == 0; }
 static unsigned free_count(void) { unsigned n = 0; for (unsigned i = 0; i < XV_K; i++) if (gh_owner[i] == OW_FREE) n++; return n; }
-static unsigned word_index(uintptr_t w) { for (unsigned i = 0; i < XV_K; i++) if (w == (uintptr_t)SLOT(i)) return i; return XV_K; }
 /* Inv_K, stated locally with ghost witnesses (no walking, no counting): gh_rank[i] = position of free slot i on the chain, gh_pred[i] = its predecessor.
  *   hint = null iff no slot is free, else hint is a free slot of rank 0;
  *   a free slot i carries the link tag, rank < K, and links to null or to a free slot of rank+1      (=> the chain from hint is inside the block,
@@ -139,7 +152,7 @@ static _Bool inv_ok(const struct guard* A, const struct guard* B, _Bool relaxA) 
     if (gh_owner[i] == OW_FREE) {
       if (local_thread_data.hint == 0 || SV_mark(v) == 0 || gh_rank[i] >= XV_K) return 0;
       if (SV_get(v) != 0) { unsigned t = word_index(SV_get(v)); if (t >= XV_K || gh_owner[t] != OW_FREE || gh_rank[t] != gh_rank[i] + 1) return 0; }
-      if (i != h) { unsigned p = gh_pred[i]; if (p >= XV_K || gh_owner[p] != OW_FREE || SV_get(SLOT(p)->value) != (uintptr_t)SLOT(i) || gh_rank[p] + 1 != gh_rank[i]) return 0; }
+      if (i != h) { unsigned p = gh_pred[i]; if (p >= XV_K || gh_owner[p] != OW_FREE || SV_get(SLOT(p)->value) != SLOTW(i) || gh_rank[p] + 1 != gh_rank[i]) return 0; }
     } else {
       if (!(relaxA && gh_owner[i] == OW_A) && SV_mark(v) != 0) return 0;        /* relaxA: between alloc and set_object */
       if (gh_owner[i] == OW_OTHER && v == 0) return 0;                            /* other live guards protect something */
@@ -186,6 +199,7 @@ mptr in_a_ptr, in_b_ptr, in_val, in_expected, in_src; uintptr_t in_mask; int in_
 static void build_state(_Bool with_a, _Bool with_b) {
   in_a_idx = nondet_uint(); in_b_idx = nondet_uint(); in_uninit = nondet_bool();
   in_a_ptr = nondet_uptr(); in_b_ptr = nondet_uptr(); in_mask = nondet_uptr(); mp_ptrmask = in_mask;
+  xv_base = XV_BASE;
   XV_ASSUME(in_a_idx <= XV_K && in_b_idx <= XV_K && (in_a_idx == XV_K || in_a_idx != in_b_idx));
   if (!with_a) XV_ASSUME(in_a_idx == XV_K);
   if (!with_b) XV_ASSUME(in_b_idx == XV_K);
@@ -210,12 +224,12 @@ static void build_state(_Bool with_a, _Bool with_b) {
         XV_ASSUME(head < XV_K && gh_rank[i] < XV_K && nx <= XV_K);
         if (nx < XV_K) XV_ASSUME(gh_owner[CL(nx)] == OW_FREE && gh_rank[CL(nx)] == gh_rank[i] + 1 && gh_pred[CL(nx)] == i);
         if (i != head) XV_ASSUME(p < XV_K && gh_owner[CL(p)] == OW_FREE && gh_rank[CL(p)] + 1 == gh_rank[i]);
-        SLOT(i)->value = (nx < XV_K ? (uintptr_t)SLOT(CL(nx)) : 0) | SV_BIT;
+        SLOT(i)->value = (nx < XV_K ? SLOTW(CL(nx)) : 0) | SV_BIT;
       } else {
         uintptr_t o = nondet_uptr(); XV_ASSUME((o >> 48) == 0 && (gh_owner[i] != OW_OTHER || o != 0)); SLOT(i)->value = o; gh_rank[i] = 15;
       }
     }
-    for (unsigned i = 0; i < XV_K; i++) if (gh_owner[i] == OW_FREE && i != head) XV_ASSUME(SV_get(SLOT(CL(gh_pred[i]))->value) == (uintptr_t)SLOT(i));
+    for (unsigned i = 0; i < XV_K; i++) if (gh_owner[i] == OW_FREE && i != head) XV_ASSUME(SV_get(SLOT(CL(gh_pred[i]))->value) == SLOTW(i));
   }
   pre_head = head;
   for (unsigned i = 0; i < XV_K; i++) ranks |= (uint64_t)(gh_rank[i] & 15) << (4 * i);
@@ -276,6 +290,7 @@ void h_slot(void) {
   unsigned j = nondet_uint(), m = nondet_uint(); XV_ASSUME(j < XV_K && m <= XV_K);
   for (unsigned i = 0; i < XV_K; i++) { SLOT(i)->value = nondet_uptr(); pre_val[i] = SLOT(i)->value; }
   xv_clock = nondet_u64(); XV_ASSUME(xv_clock < ((uint64_t)1 << 62)); xv_threw = 0; mon_reset();
+  xv_base = XV_BASE;
   uintptr_t res0 = nondet_uptr(), res = res0;
   if (nondet_bool()) {
     uintptr_t obj = nondet_uptr(); XV_ASSUME((obj >> 48) == 0);
@@ -304,7 +319,7 @@ void h_init(void) {
     local_thread_data.control_block = &the_cb; local_thread_data.hint = b;
     XV_OBL("hp.initialize.all_free", b == SLOT(0) && derive_owner(&gA, &gB) && inv_ok(&gA, &gB, 0) && free_count() == XV_K);
     for (unsigned i = 0; i < XV_K; i++)
-      XV_OBL("hp.initialize.all_free", SLOT(i)->value == (((i + 1 < XV_K) ? (uintptr_t)SLOT(i + 1) : 0) | SV_BIT));
+      XV_OBL("hp.initialize.all_free", SLOT(i)->value == (((i + 1 < XV_K) ? SLOTW(i + 1) : 0) | SV_BIT));
     XV_CANARY("init.block");
   } else {
     size_t act0 = xv_number_of_active_hps;
@@ -331,7 +346,7 @@ void h_alloc(void) {
       XV_OBL("hp.alloc.k_available", !xv_threw && r != 0 && slot_index(r) < XV_K);
       if (!in_uninit) {
         XV_OBL("hp.alloc.k_available", r == pre_hint && slots_unchanged_except(0) && gh_acquire_entry_calls == 0);
-        XV_OBL("hp.alloc.k_available", local_thread_data.hint == (struct hp_slot*)SV_get(pre_val[CL(slot_index(r))]));
+        XV_OBL("hp.alloc.k_available", local_thread_data.hint == xv_w2p(SV_get(pre_val[CL(slot_index(r))])));
         XV_CANARY("alloc.from_chain");
       } else {
         XV_OBL("hp.alloc.k_available", r == SLOT(0) && gh_acquire_entry_calls == 1 && local_thread_data.control_block == &the_cb);
@@ -348,7 +363,7 @@ void h_alloc(void) {
   } else {
     td_release_hazard_pointer(&local_thread_data, &gA.hp);
     if (a0.hp != 0) {
-      XV_OBL("hp.release.returns_slot", gA.hp == 0 && local_thread_data.hint == a0.hp && a0.hp->value == ((uintptr_t)pre_hint | SV_BIT));
+      XV_OBL("hp.release.returns_slot", gA.hp == 0 && local_thread_data.hint == a0.hp && a0.hp->value == (xv_p2w(pre_hint) | SV_BIT));
       XV_OBL("hp.release.returns_slot", slots_unchanged_except(a0.hp) && !xv_threw && local_thread_data.control_block == pre_cb);
       gA.ptr = 0;
       XV_OBL("hp.release.returns_slot", derive_owner(&gA, &gB) && inv_ok(&gA, &gB, 0) && owners_unchanged_except(a0.hp) && gh_owner[CL(slot_index(a0.hp))] == OW_FREE);
@@ -364,7 +379,7 @@ void h_alloc(void) {
 enum { OP_CTOR, OP_COPY_CTOR, OP_MOVE_CTOR, OP_COPY_ASSIGN, OP_COPY_ASSIGN_SELF, OP_MOVE_ASSIGN, OP_MOVE_ASSIGN_SELF, OP_RESET, OP_RESET_TWICE,
        OP_SWAP, OP_SWAP_SELF, OP_RECLAIM, OP_DTOR, OP_COUNT };
 static _Bool returned_to_chain(const struct hp_slot* s) {      /* s was released: head of the chain, linked to the old head */
-  return local_thread_data.hint == s && s->value == ((uintptr_t)pre_hint | SV_BIT) && slots_unchanged_except(s);
+  return local_thread_data.hint == s && s->value == (xv_p2w(pre_hint) | SV_BIT) && slots_unchanged_except(s);
 }
 void h_gops(void) {
   build_state(1, 1); in_op = nondet_uint(); in_val = nondet_uptr(); XV_ASSUME(in_op < OP_COUNT && CANON(in_val));
